@@ -155,9 +155,17 @@ def run_case(desc):
                 level = rng.choice([None, 0, 1, 2, 3, 4])
                 pred = rng.choice([None, lambda u, d: type(u).__name__ == "Call", lambda u, d: bool(u.scope) or True])
                 fmt = rng.choice(["svg", "dot", "svg"])
-                out = uberjob.render(target, registry=registry if rng.random() < 0.7 else None, predicate=pred, level=level, format=fmt)
+                out = None
+                rexc = None
+                try:
+                    out = uberjob.render(target, registry=registry if rng.random() < 0.7 else None, predicate=pred, level=level, format=fmt)
+                except BaseException as e:
+                    rexc = e
+                    detail["render_raised"] = repr(e)[:120]
                 counters["renders"] = 1
                 bad = compare(f"render(level={level}, format={fmt}, predicate={'yes' if pred else 'no'})")
+                if bad is None and rexc is not None:
+                    return {"status": "inconclusive", "detail": f"render raised {rexc!r} on a valid plan"}
                 if bad is None and not out:
                     bad = "render returned nothing"
         elif op in ("concurrent", "concurrent_reg"):
@@ -199,7 +207,7 @@ def run_case(desc):
                             break
                 else:
                     raw, seen = S.scratch()
-                    want = None if out_ids is None else [seen[i] for i in out_ids]
+                    want = None if out_ids is None else (seen[int(out_ids)] if isinstance(out_ids, regmodel.Bare) else [seen[i] for i in out_ids])
                     for j in range(T):
                         if not irmod.struct_eq(results[j], want):
                             bad = f"concurrent runner {j} (up-to-date registry) returned {irmod.canon(results[j])[:120]}, expected {irmod.canon(want)[:120]}"
